@@ -770,6 +770,10 @@ def step (d : DS) (line : String) : DS × Option String :=
       match k.toNat? with
       | none => (d, none)
       | some n => let (l, _) := t.svs n; ({ d with fext := some (fun i => l.getD i SV.zero), lastFDC := [] }, none)
+    | "csdump" =>
+      let parts := d.cset.cs.map (fun c =>
+        s!"t {if c.ctype = .contact then 0 else 1} n {c.T.length} row {c.row} b {c.bodyP} {c.bodyS}")
+      let (d, s) := out d cmd (" | ".intercalate (s!"size {d.cset.size}" :: parts)); (d, some s)
     | "cs_new" => ({ d with cset := CSet.empty, actuation := [], vplus := fun _ => 0, lastFDC := [] }, none)
     | "cs_contact" =>
       let (body, t) := t.nat; let (p, t) := t.v3; let (n, t) := t.v3; let (uid, _) := t.nat
@@ -798,9 +802,28 @@ def step (d : DS) (line : String) : DS × Option String :=
     | "call" => let (d, s) := doCall d t; ({ d with impl := [] }, some s)
     | _ => let (d, s) := out d cmd "bad-op"; (d, some s)
 
+partial def skipLua (h : IO.FS.Stream) : IO Unit := do
+  let line ← h.getLine
+  if line.isEmpty then return ()
+  if line.trimAscii.toString = "luaend" then return ()
+  skipLua h
+
 partial def loop (h : IO.FS.Stream) (o : IO.FS.Stream) (d : DS) : IO Unit := do
   let line ← h.getLine
   if line.isEmpty then return ()
+  let tl := line.trimAscii.toString
+  if tl.startsWith "luafile" then
+    skipLua h
+    loop h o d
+    return ()
+  if tl.startsWith "@impl" then
+    loop h o d
+    return ()
+  if tl.startsWith "@model " then
+    -- executed silently: the equivalent API calls of a description that the C++ side loads from Lua
+    let (d', _) := step d (tl.drop 7).toString
+    loop h o { d' with callNo := d.callNo }
+    return ()
   let (d', s) := step d line
   match s with
   | some s => o.putStrLn s
